@@ -24,7 +24,8 @@ def _work(args):
     t0 = time.time()
     spec = gen.gen_spec(seed, **(force or {}))
     try:
-        r = rec.run_spec(spec)
+        with common.time_limit(common.RUN_LIMIT):
+            r = rec.run_spec(spec)
     except Exception as ex:
         import traceback
         return {"seed": seed, "spec": spec, "crash": traceback.format_exc()[-1200:], "viol": {}, "sig": None, "stats": {}}
